@@ -231,6 +231,30 @@ func verifC10Timeout() {
 	}
 	cut := []int{0, 5, len(hello) - 1}[vInt(0, 2)]
 	tr.in = append(tr.in, hello[:cut]...)
+	if vBool() {
+		// a context whose own deadline is far away is cancelled early: NewConn fails at the
+		// cancellation, it does not wait for the deadline
+		far := time.Hour
+		if !vSymbolic() {
+			far = 1500 * time.Millisecond // (natively: beyond the 1 s allowed below, well within the replay watchdog)
+		}
+		ctx2, cancel2 := context.WithTimeout(context.Background(), far)
+		defer cancel2()
+		go func() {
+			time.Sleep(50 * time.Millisecond)
+			cancel2()
+		}()
+		_, err2 := NewConn(ctx2, tr)
+		elapsed2 := vNowNanos() - start
+		vAssert(err2 != nil, "a stalled client makes NewConn fail when the context is cancelled")
+		allowed := int64(50 * time.Millisecond) // virtual time: exactly at the cancellation
+		if !vSymbolic() {
+			allowed = int64(time.Second)
+		}
+		vAssert(elapsed2 <= allowed, "NewConn fails at the cancellation, not at the context's distant deadline")
+		vReach("timeout-stalled")
+		return
+	}
 	_, err := NewConn(ctx, tr)
 	elapsed := vNowNanos() - start
 	vAssert(err != nil, "a stalled client makes NewConn fail when the context's deadline passes")
